@@ -1064,10 +1064,12 @@ func (c *compiler) createFunctionBindings(funcs []*ast.FunctionDeclaration) {
 		unique := !s.isFunction() && !s.variable && s.strict
 		if !unique {
 			hasNonStandard := false
+			// (at the top level of a function body generator and async function declarations are var-scoped too)
+			topLevel := s.isFunction() || s.variable && (s.outer.eval || s.outer.isFunction())
 			for _, decl := range funcs {
-				if !decl.Function.Async && !decl.Function.Generator {
+				if !decl.Function.Async && !decl.Function.Generator || topLevel {
 					b, created := s.bindNameLexical(decl.Function.Name.Name, false, int(decl.Function.Name.Idx1())-1)
-					if created && (s.isFunction() || s.variable && (s.outer.eval || s.outer.isFunction())) {
+					if created && topLevel {
 						// a top-level function of a function body (also of the separate variable scope of a function
 						// with a non-simple parameter list) or of the variable scope of strict eval code is
 						// var-scoped: a var declaration of the same name (also one made by direct eval code at run
